@@ -60,7 +60,7 @@ def run_tlc(module, cfg=None, *, cfg_text=None, workers=16, simulate=None, depth
             cfg_path = SPEC / (cfg if cfg.endswith(".cfg") else cfg + ".cfg")
             if not cfg_path.exists():
                 raise MachineryError(f"missing cfg {cfg_path}")
-        cmd = ["java", "-XX:+UseParallelGC", f"-Xmx{heap}"]
+        cmd = ["java", "-XX:+UseParallelGC", f"-Xmx{heap}", "-Xss64m"]
         if dfs:
             cmd.append("-Dtlc2.tool.queue.IStateQueue=StateDeque")
         cmd += ["-cp", JAR, "tlc2.TLC", "-config", str(cfg_path), "-metadir", str(work / "meta"),
